@@ -414,4 +414,32 @@ example : turnsRun.map (fun s => (s.obs, s.parked.map (·.node), s.topLive turns
      ([.complete "E", .req "C"], [], true, none), ([.complete "e"], [], true, none), ([.complete "e"], [], false, none)] := by
   decide
 
+/-- an answer's payload is irrelevant for a task that declares no results -/
+theorem answer_payload_irrelevant (cfg : Cfg) (p : Proc) (s : St) (node : String) (occ : Nat) (n : Node)
+    (hn : p.node? node = some n) (hr : n.hasResults = false) (r : List (String × Int)) :
+    answer cfg p s node occ (.ok r) = answer cfg p s node occ (.ok []) := by
+  unfold answer
+  simp only [hn]
+  split
+  · rename_i heq
+    have e : n = _ := Option.some.inj heq
+    subst e
+    simp only [applyDeclared, hr, Bool.not_false, if_true]
+  · rfl
+
+/-- … so the history of `turnsRun` is the same whatever the four answers carry -/
+theorem turnsRun_any_payload (r1 r2 r3 r4 : List (String × Int)) :
+    let s0 := start Cfg.ideal turnsProc []
+    let s1 := answer Cfg.ideal turnsProc s0 "T" 1 (.ok r1)
+    let s2 := answer Cfg.ideal turnsProc s1 "T" 2 (.ok r2)
+    let s3 := answer Cfg.ideal turnsProc s2 "C" 1 (.ok r3)
+    let s4 := answer Cfg.ideal turnsProc s3 "C" 2 (.ok r4)
+    [s0, s1, s2, s3, s4] = turnsRun := by
+  have hT : turnsProc.node? "T" = some { id := "T", kind := .task, ins := ["g1"], outs := ["g2"], parent := "U" } := rfl
+  have hC : turnsProc.node? "C" = some { id := "C", kind := .task, ins := ["f4"], outs := ["f5"] } := rfl
+  simp only
+  rw [answer_payload_irrelevant _ _ _ "T" 1 _ hT rfl r1, answer_payload_irrelevant _ _ _ "T" 2 _ hT rfl r2,
+    answer_payload_irrelevant _ _ _ "C" 1 _ hC rfl r3, answer_payload_irrelevant _ _ _ "C" 2 _ hC rfl r4]
+  rfl
+
 end Bpmn.Props.C12Turns
